@@ -106,6 +106,7 @@ type Path struct {
 	assumed    int
 	solverWall time.Duration
 	asserts    int
+	notes      []string
 	fnsSeen    map[*ssa.Function]bool
 }
 
